@@ -202,13 +202,13 @@ def main(tier):
         mcf = mitcross.mit_conf_cross(wd, confs, 400 if not run.thorough else 4000)
         run.extra["krb5conf_vs_mit_profile"] = {k: v for k, v in mcf.items() if k != "first"}
         if mcf.get("disagreements"):
-            raise vlib.Inconclusive("the configuration models and MIT's reading of their text disagree on %d values: %s" % (mcf["disagreements"], mcf["first"]))
+            vlib.spec_validation_problem(run, "the configuration models and MIT's reading of their text disagree on %d values: %s" % (mcf["disagreements"], mcf["first"]))
         # ---- the resolution rule against MIT Kerberos' krb5_get_host_realm on the same configurations (validates RealmResolve, not gokrb5)
         import mitcross
         mh = mitcross.mit_hostrealm_cross(wd, 150 if not run.thorough else 1500)
         run.extra["realmresolve_vs_mit"] = {k: v for k, v in mh.items() if k != "first"}
         if mh.get("disagreements"):
-            raise vlib.Inconclusive("RealmResolve and MIT's krb5_get_host_realm disagree on %d resolutions: %s" % (mh["disagreements"], mh["first"]))
+            vlib.spec_validation_problem(run, "RealmResolve and MIT's krb5_get_host_realm disagree on %d resolutions: %s" % (mh["disagreements"], mh["first"]))
         vlib.run_harness(["c16", "-out", trace, "-hosts", os.path.join(wd, "hosts.ndjson"), "-subsets", os.path.join(wd, "subsets.ndjson"),
                           "-confs", os.path.join(wd, "confs.ndjson")], timeout=3000)
         lines = vlib.read_ndjson(trace)
